@@ -136,7 +136,7 @@ class MatchWithError(Match):
     def __init__(self, func, error):
         if not ExceptionUtil.has_traceback(error):
             ExceptionUtil.set_traceback(error)
-        Match.__init__(self, func=func)
+        Match.__init__(self, func=func, arguments=[])
         self.stored_error = error
 
     def run(self, context):
